@@ -132,6 +132,20 @@ def check_start_language(ctx, rep, cls_short, method, spec_name, alphabet, judge
     return w, under, rxv
 
 
+def start_pattern(ctx, cls_short, method):
+    """The one regex a block start applies to its line (no reporting)."""
+    model = ctx.model
+    cls = model.cls(cls_short)
+    paths = blockproto.explore_classfunc(model, cls, method, lambda it: [AbsStr(label='line')])
+    patterns = {}
+    for pr in paths:
+        for m in pr.matches:
+            patterns[m.rx] = m
+    if len(patterns) != 1:
+        raise AnalysisError('%s.%s applies %d regex literals to the line, expected exactly one' % (cls.short, method, len(patterns)))
+    return list(patterns)[0]
+
+
 def _pattern_attr(cls, rxv, model):
     it = Interp(model)
     for c in cls.mro():
@@ -245,18 +259,18 @@ def _freeze_args(args):
     return tuple(a if isinstance(a, (str, int)) else repr(a) for a in args)
 
 
-def rule_scanner_indent(ctx, rep):
+def rule_scanner_indent(ctx, rep, rule='R-SCANNER-INDENT', upto=6, desc=None):
     """Hand-written block starts honour the 'up to three spaces of indentation' rule: decision table over
-    the number of leading spaces (0..6) of a tab-free line."""
+    the number of leading spaces (0..6) of a tab-free line. With upto=3 only the half 'the up to three spaces
+    that a paragraph would drop make no difference' is decided (shared with C09)."""
     model = ctx.model
-    rule = 'R-SCANNER-INDENT'
-    rep.rule(rule, 'Quote.start / HtmlBlock.start accept at most three leading spaces')
+    rep.rule(rule, desc or 'Quote.start / HtmlBlock.start accept at most three leading spaces')
     from ..interp import enumerate_paths
     for short, must in (('block_token.Quote', ('rest-startswith', '>')), ('block_token.HtmlBlock', None)):
         cls = model.cls(short)
         st = cls.lookup('start')[1]
         rep.instance(rule)
-        for n in range(0, 7):
+        for n in range(0, upto + 1):
             def run_(oracle, n=n):
                 it = Interp(model, loop_bound=1)
                 it.reset_run(oracle)
@@ -433,6 +447,11 @@ def run(ctx):
     # shared clauses
     from . import c03
     c03.rule_cond(ctx, rep)     # digits, dots and parentheses that do not form an interrupting list marker stay prose
+    # "... is rendered as exactly that text, HTML-escaped": the text escaper establishes its postcondition for every
+    # character, an ampersand in front of something that looks like a reference included (shared with C08)
+    from . import c08
+    rep.rule('R-SANITISER', 'escaping helpers establish their postcondition (computed from their bodies)')
+    c08.rule_sanitisers(ctx, rep, [c for c in ctx.configs() if c.label == 'HtmlRenderer' and c.error is None], None)
     from . import c06, c16
     c06.rule_flank(ctx, rep, prose_rows_only=True)
     c16.rule_gap_verbatim(ctx, rep)
